@@ -11,7 +11,8 @@
 (*   init    snapshot of the directories before the first command           *)
 (*   events  [cmd (record of Pipeline.tla), exit, snap, report, remote]     *)
 (*   snap    per directory: fullres/transform ("absent"|"ok"|"bad", hash),  *)
-(*           info [st, txt (canonical JSON), dtype, itemsize, channels],    *)
+(*           info [st, txt (canonical JSON), dtype, itemsize, channels,     *)
+(*           type], scales additionally carry enc (their encoding),         *)
 (*           scales [key, size, chunk, sharded, st (per chunk "ok" |        *)
 (*           "absent" | "unreadable"), vox (array index of the decoded      *)
 (*           whole scale, 0 unless every chunk is ok), nstored (chunks      *)
@@ -38,6 +39,9 @@
 (*   oracle:SourceChanged           convert-chunks altered its source       *)
 (*   oracle:SuccessButMissingFile   exit 0, info / info_fullres / transform *)
 (*                                  missing or not JSON                     *)
+(*   oracle:SuccessButWrongInfo     generate-scales-info exit 0, but the    *)
+(*                                  info on disk does not have the          *)
+(*                                  requested type / encoding / max. scales *)
 (*   oracle:SuccessButMissingChunk  exit 0, a chunk the step is responsible *)
 (*                                  for cannot be fetched by a fresh reader *)
 (*   oracle:SuccessButUnreadable    exit 0, such a chunk does not decode    *)
@@ -145,7 +149,13 @@ InfoOk(sd) == sd.info.st = "ok" /\ Len(sd.scales) >= 1
 SuccessClause(c, S1) ==
   LET sd == S1[c.d] IN
   CASE c.op = "GenInfo"   -> Chk(sd.fullres = "ok" /\ sd.transform = "ok", "oracle:SuccessButMissingFile")
-    [] c.op = "GenScales" -> Chk(InfoOk(sd), "oracle:SuccessButMissingFile")
+    [] c.op = "GenScales" -> IF ~InfoOk(sd) THEN "oracle:SuccessButMissingFile"
+                             \* the info on disk is the one this command was asked to produce
+                             ELSE Chk(/\ sd.info.type = c.type
+                                      /\ \A j \in 1..Len(sd.scales) : sd.scales[j].enc = c.enc
+                                      /\ (c.max = "one" => Len(sd.scales) = 1)
+                                      /\ (c.max = "two" => Len(sd.scales) <= 2),
+                                      "oracle:SuccessButWrongInfo")
     [] c.op = "Edit"      -> "ok"
     [] c.op = "Rechunk"   -> "ok"
     [] c.op = "Obstruct"  -> "ok"
@@ -330,7 +340,8 @@ DirAgrees(m, sd) ==
         /\ (m.info.sh # "nosh") = ObsSharded(sd)
         /\ \A i \in 1..m.info.n :
               /\ Readable(m, i) = ScDone(sd.scales[i])
-              /\ (m.chunks[i] # "absent") = SomePresent(sd.scales[i])))
+              \* (a write that fails on an obstructed scale may leave part of it behind)
+              /\ (i \in m.blocked \/ (m.chunks[i] # "absent") = SomePresent(sd.scales[i]))))
 
 \* equal content ids => equal decoded arrays; "map" = the input volume
 ContentAgrees(M, S1) ==
